@@ -257,7 +257,9 @@ func (p *Proxy) handleLoop(conn net.Conn) {
 		deadline := time.Now().Add(p.timeout)
 		conn.SetDeadline(deadline)
 
-		if err := p.handle(ctx, conn, brw); isCloseable(err) {
+		// The session's connection is replaced when a CONNECT tunnel is upgraded
+		// to TLS; later requests of the tunnel must be handled on that connection.
+		if err := p.handle(ctx, s.currentConn(), brw); isCloseable(err) {
 			log.Debugf("martian: closing connection: %v", conn.RemoteAddr())
 			return
 		}
@@ -367,6 +369,7 @@ func (p *Proxy) handleConnectRequest(ctx *Context, req *http.Request, session *S
 			}
 			brw.Writer.Reset(nconn)
 			brw.Reader.Reset(nconn)
+			session.setConn(nconn, brw)
 			return p.handle(ctx, nconn, brw)
 		}
 
